@@ -22,7 +22,7 @@ inductive Expr
   | notP (a : Expr)
   | andP (a : Expr)      -- positive lookahead `&e`
   | rule (name : String)
-deriving Repr, Inhabited
+deriving Repr, Inhabited, BEq
 
 inductive Kind | normal | silent | atomic | compound
 deriving DecidableEq, Repr, Inhabited
@@ -31,9 +31,36 @@ structure Rule where
   name : String
   kind : Kind
   body : Expr
-deriving Repr, Inhabited
+deriving Repr, Inhabited, BEq
 
 abbrev Grammar := List Rule
+
+def Expr.appSeq : Expr → Expr → Expr
+  | .seq x y, t => .seq x (appSeq y t)
+  | x, t => .seq x t
+
+def Expr.appChoice : Expr → Expr → Expr
+  | .choice x y, t => .choice x (appChoice y t)
+  | x, t => .choice x t
+
+/-- sequences and choices re-associated to the right (`a ~ b ~ c` has one meaning however it is nested) -/
+def Expr.canon : Expr → Expr
+  | .seq a b => Expr.appSeq a.canon b.canon
+  | .choice a b => Expr.appChoice a.canon b.canon
+  | .opt a => .opt a.canon
+  | .star a => .star a.canon
+  | .plus a => .plus a.canon
+  | .notP a => .notP a.canon
+  | .andP a => .andP a.canon
+  | e => e
+
+/-- names of the rules on which two grammars differ (missing on one side, or different kind / body) -/
+def grammarDiff (g h : Grammar) : List String :=
+  let one (a b : Grammar) := a.filterMap fun r =>
+    match b.find? (·.name == r.name) with
+    | some r' => if r.kind == r'.kind && r.body.canon == r'.body.canon then none else some r.name
+    | none => some r.name
+  (one g h ++ (one h g).filter fun n => !(one g h).contains n)
 
 /-- pest's `Pair` -/
 inductive Pair
@@ -62,95 +89,105 @@ def matchStr (input : Array UInt8) (pos : Nat) (s : List UInt8) : Bool :=
     | c :: cs => if h : i < input.size then (input[i] == c && go (i + 1) cs) else false
   go pos s
 
-/-- The interpreter.  `fuel` bounds the total number of expression evaluations. -/
-partial def run (g : Grammar) (input : Array UInt8) : Expr → Atomicity → Bool → St → Option St
-  -- `tokens`: whether rules produce pairs (false inside an atomic rule)
-  | .str s, _, _, st =>
-    let bs := s.toUTF8.toList
-    if matchStr input st.pos bs then some { st with pos := st.pos + bs.length } else none
-  | .range lo hi, _, _, st =>
-    if h : st.pos < input.size then
-      let b := input[st.pos].toNat
-      if lo.toNat ≤ b ∧ b ≤ hi.toNat then some { st with pos := st.pos + 1 } else none
-    else none
-  | .any, _, _, st =>
-    if h : st.pos < input.size then some { st with pos := st.pos + utf8Len input[st.pos] } else none
-  | .soi, _, _, st => if st.pos = 0 then some st else none
-  | .eoi, _, _, st => if st.pos ≥ input.size then some st else none
-  | .seq a b, at_, tk, st =>
-    match run g input a at_ tk st with
-    | none => none
-    | some st1 =>
-      let st2 := skip g input at_ tk st1
-      run g input b at_ tk st2
-  | .choice a b, at_, tk, st =>
-    match run g input a at_ tk st with
-    | some r => some r
-    | none => run g input b at_ tk st
-  | .opt a, at_, tk, st =>
-    match run g input a at_ tk st with
-    | some r => some r
-    | none => some st
-  | .star a, at_, tk, st =>
-    -- first iteration without a leading skip, later ones as `sequence(skip, a)`
-    match run g input a at_ tk st with
-    | none => some st
-    | some st1 => some (repeatMore g input a at_ tk st1)
-  | .plus a, at_, tk, st =>
-    match run g input a at_ tk st with
-    | none => none
-    | some st1 => some (repeatMore g input a at_ tk st1)
-  | .notP a, at_, _, st =>
-    match run g input a at_ false st with
-    | some _ => none
-    | none => some st
-  | .andP a, at_, _, st =>
-    match run g input a at_ false st with
-    | some _ => some st
-    | none => none
-  | .rule name, at_, tk, st =>
-    match g.find? (·.name == name) with
-    | none => none
-    | some r =>
-      let (at', tk') : Atomicity × Bool := match r.kind with
-        | .atomic => (.atomic, false)
-        | .compound => (.compound, tk)
-        | _ => (at_, tk)
-      match run g input r.body at' tk' { pos := st.pos, pairs := [] } with
+abbrev Eval := Expr → Atomicity → Bool → St → Option St
+
+/-- implicit skip: `(WHITESPACE | COMMENT)*`, only in non-atomic context; it runs atomically.
+    `r` evaluates an expression (the interpreter one level down) -/
+def skipLoop (r : Eval) (tk : Bool) : Nat → St → St
+  | 0, st => st
+  | n + 1, st =>
+    match r (.rule "WHITESPACE") .atomic tk st with
+    | some s1 => if s1.pos > st.pos then skipLoop r tk n s1 else st
+    | none =>
+      match r (.rule "COMMENT") .atomic tk st with
+      | some s2 => if s2.pos > st.pos then skipLoop r tk n s2 else st
+      | none => st
+
+def skipWith (r : Eval) (size : Nat) (at_ : Atomicity) (tk : Bool) (st : St) : St :=
+  if at_ != .nonAtomic then st else skipLoop r tk (size + 1) st
+
+def repeatLoop (r : Eval) (size : Nat) (a : Expr) (at_ : Atomicity) (tk : Bool) : Nat → St → St
+  | 0, st => st
+  | n + 1, st =>
+    let st1 := skipWith r size at_ tk st
+    match r a at_ tk st1 with
+    | some st2 => if st2.pos > st.pos then repeatLoop r size a at_ tk n st2 else st
+    | none => st
+
+def repeatMore (r : Eval) (size : Nat) (a : Expr) (at_ : Atomicity) (tk : Bool) (st : St) : St :=
+  repeatLoop r size a at_ tk (size + 1) st
+
+/-- The interpreter.  `fuel` bounds the nesting depth of expression evaluations (rule references and
+    sub-expressions); a total function, by structural recursion on it. -/
+def run (g : Grammar) (input : Array UInt8) : Nat → Eval
+  | 0, _, _, _, _ => none
+  | fuel + 1, e, at_, tk, st =>
+    let r : Eval := run g input fuel
+    match e with
+    -- `tokens`: whether rules produce pairs (false inside an atomic rule)
+    | .str s =>
+      let bs := s.toUTF8.toList
+      if matchStr input st.pos bs then some { st with pos := st.pos + bs.length } else none
+    | .range lo hi =>
+      if h : st.pos < input.size then
+        let b := input[st.pos].toNat
+        if lo.toNat ≤ b ∧ b ≤ hi.toNat then some { st with pos := st.pos + 1 } else none
+      else none
+    | .any =>
+      -- one UTF-8 scalar; a sequence cut short by the end of the input ends there (pest never sees one:
+      -- its input is a `&str`)
+      if h : st.pos < input.size then some { st with pos := min (st.pos + utf8Len input[st.pos]) input.size } else none
+    | .soi => if st.pos = 0 then some st else none
+    | .eoi => if st.pos ≥ input.size then some st else none
+    | .seq a b =>
+      match r a at_ tk st with
       | none => none
-      | some inner =>
-        if r.kind == .silent then some { pos := inner.pos, pairs := st.pairs ++ inner.pairs }
-        else if tk then some { pos := inner.pos, pairs := st.pairs ++ [Pair.mk name st.pos inner.pos inner.pairs] }
-        else some { pos := inner.pos, pairs := st.pairs }
-where
-  /-- implicit skip: `(WHITESPACE | COMMENT)*`, only in non-atomic context; it runs atomically -/
-  skip (g : Grammar) (input : Array UInt8) (at_ : Atomicity) (tk : Bool) (st : St) : St :=
-    if at_ != .nonAtomic then st
-    else
-      let rec loop (n : Nat) (st : St) : St :=
-        match n with
-        | 0 => st
-        | n + 1 =>
-          match run g input (.rule "WHITESPACE") .atomic tk st with
-          | some s1 => if s1.pos > st.pos then loop n s1 else st
-          | none =>
-            match run g input (.rule "COMMENT") .atomic tk st with
-            | some s2 => if s2.pos > st.pos then loop n s2 else st
-            | none => st
-      loop (input.size + 1) st
-  repeatMore (g : Grammar) (input : Array UInt8) (a : Expr) (at_ : Atomicity) (tk : Bool) (st : St) : St :=
-    let rec loop (n : Nat) (st : St) : St :=
-      match n with
-      | 0 => st
-      | n + 1 =>
-        let st1 := skip g input at_ tk st
-        match run g input a at_ tk st1 with
-        | some st2 => if st2.pos > st.pos then loop n st2 else st
-        | none => st
-    loop (input.size + 1) st
+      | some st1 => r b at_ tk (skipWith r input.size at_ tk st1)
+    | .choice a b =>
+      match r a at_ tk st with
+      | some x => some x
+      | none => r b at_ tk st
+    | .opt a =>
+      match r a at_ tk st with
+      | some x => some x
+      | none => some st
+    | .star a =>
+      -- first iteration without a leading skip, later ones as `sequence(skip, a)`
+      match r a at_ tk st with
+      | none => some st
+      | some st1 => some (repeatMore r input.size a at_ tk st1)
+    | .plus a =>
+      match r a at_ tk st with
+      | none => none
+      | some st1 => some (repeatMore r input.size a at_ tk st1)
+    | .notP a =>
+      match r a at_ false st with
+      | some _ => none
+      | none => some st
+    | .andP a =>
+      match r a at_ false st with
+      | some _ => some st
+      | none => none
+    | .rule name =>
+      match g.find? (·.name == name) with
+      | none => none
+      | some rl =>
+        let (at', tk') : Atomicity × Bool := match rl.kind with
+          | .atomic => (.atomic, false)
+          | .compound => (.compound, tk)
+          | _ => (at_, tk)
+        match r rl.body at' tk' { pos := st.pos, pairs := [] } with
+        | none => none
+        | some inner =>
+          if rl.kind == .silent then some { pos := inner.pos, pairs := st.pairs ++ inner.pairs }
+          else if tk then some { pos := inner.pos, pairs := st.pairs ++ [Pair.mk name st.pos inner.pos inner.pairs] }
+          else some { pos := inner.pos, pairs := st.pairs }
+
+/-- nesting depth allowed (the PDL grammar needs about 150) -/
+def defaultFuel : Nat := 4096
 
 def parse (g : Grammar) (start : String) (input : Array UInt8) : Option (List Pair) :=
-  (run g input (.rule start) .nonAtomic true { pos := 0, pairs := [] }).map (·.pairs)
+  (run g input defaultFuel (.rule start) .nonAtomic true { pos := 0, pairs := [] }).map (·.pairs)
 
 end Peg
 end Pdlv
